@@ -97,7 +97,7 @@ func seed(w *hub.World, keys [][]byte) bool {
 
 // recover expired leftovers: the clock passes every TTL, a fresh client reads all keys (lock resolution by a reader), then
 // either GC-style batch resolution or a pessimistic locker pass removes what readers ignore (pessimistic locks).
-func recoverAndAudit(w *hub.World, keys [][]byte, r *vx.Rand, how int) bool {
+func recoverAndAudit(w *hub.World, keys [][]byte, r *vx.Rand, how int, victims ...*hub.Client) bool {
 	w.AdvanceClock(60000)
 	rd := w.NewClient("r")
 	ok := runAll(w, scenarioTimeout, func() {
@@ -126,7 +126,13 @@ func recoverAndAudit(w *hub.World, keys [][]byte, r *vx.Rand, how int) bool {
 	if !ok {
 		return false
 	}
-	return w.Quiesce(scenarioTimeout)
+	if !w.Quiesce(scenarioTimeout) {
+		return false
+	}
+	for _, v := range victims {
+		w.AuditNoLocks(v)
+	}
+	return true
 }
 
 func pick[T any](r *vx.Rand, xs []T) T { return xs[r.Intn(len(xs))] }
